@@ -299,6 +299,35 @@ def strip_generics(path):
 
 
 class Facts:
+    def _map_config_fields(self):
+        """Fields that only exist in some feature configurations cannot be reconciled through the reference inventory (taken from the
+        std build). The one such field the rules name - the per-instance flag of no_std builds, `Unimock.panicked: MutexIsh<bool>` - is
+        recognised by its role: the only field of Unimock that is a MutexIsh<bool>, directly or inside a single-field struct that does
+        not exist on the reference tree. It is presented under its reference name."""
+        try:
+            adts = self.j.get('adts', {})
+            u = adts.get('Unimock')
+            if not u or self.j.get('crate') != 'unimock':
+                return
+            fields = u['variants'][0]['fields']
+            if any(f['name'] == 'panicked' for f in fields):
+                return
+            known = set(_baseline().get('unimock', {}).get('adts', {}))
+
+            def is_flag(t):
+                if t == 'private::MutexIsh<bool>':
+                    return True
+                w = adts.get(strip_generics(t))
+                return bool(w) and strip_generics(t) not in known and w.get('local') and w['kind'] == 'struct' and len(w['variants']) == 1 and \
+                    len(w['variants'][0]['fields']) == 1 and w['variants'][0]['fields'][0]['ty'] == 'private::MutexIsh<bool>'
+            cands = [f for f in fields if is_flag(f['ty'])]
+            if len(cands) == 1:
+                import names
+                self.rename_log = list(getattr(self, 'rename_log', [])) + ['field %s of Unimock is the no_std panic flag (`panicked` on the reference tree): the only MutexIsh<bool> of the instance' % cands[0]['name']]
+                names.apply_structured(self.j, [('Unimock', cands[0]['name'], 'panicked')])
+        except Exception:
+            return
+
     def __init__(self, path):
         with open(path) as f:
             txt = f.read()
@@ -314,6 +343,9 @@ class Facts:
         if getattr(self.renames, 'structured', None):
             import names
             names.apply_structured(self.j, self.renames.structured)
+        if getattr(self.renames, 'tuples', None):
+            import names
+            names.apply_tuples(self.j, self.renames.tuples)
         self.path = path
         self.crate = self.j['crate']
         self.config = self.j['config']
@@ -346,6 +378,7 @@ class Facts:
             for it in im.get('items', []):
                 if it.get('uid') in self.key_of_uid:
                     it['def'] = self.key_of_uid[it['uid']]
+        self._map_config_fields()
         self.fns = {}
         for fj in self.j['fns']:
             fn = Fn(self, fj)
